@@ -484,6 +484,7 @@ const (
 	vC12SigBytesAfterQuote   = "string-field-bytes-after-closing-quote"
 	vC12SigBinaryLoneQuote   = "binary-point-lone-quote-panics-stringvalue"
 	vC12SigEmptyFieldKey     = "empty-field-key-after-tab-or-nul"
+	vC12SigBinaryEmptyKeyLQ  = "binary-point-empty-key-lone-quote-panics"
 	vC12SigKeyBackslashSpace = "key-double-backslash-before-space"
 	vC12SigNewlineInKey      = "newline-in-key-after-leading-space"
 	vC12SigMalformedFields   = "malformed-field-section-accepted"
@@ -684,12 +685,13 @@ func vC12KnownShape(p Point) string {
 		return ""
 	}
 	switch vC12StrictFields(pp.fields) {
-	case "", "bad-value-token": // a bad value token is left to the oracle: it must never be accepted
+	case "", "bad-value-token", "empty-key":
+		// a bad value token is left to the oracle: it must never be accepted. An empty field key
+		// ("m \t=1") was a finding that is repaired (fix 476b3e4): it is not tolerated any more, the
+		// oracle reports it (accepted-without-fields / field-key-lost).
 		return ""
 	case "newline-in-field-key":
 		return vC12SigNewlineInKey
-	case "empty-key":
-		return vC12SigEmptyFieldKey
 	case "bytes-after-quote":
 		return vC12SigBytesAfterQuote
 	}
